@@ -623,7 +623,7 @@ func KnobsAvailable() []string {
 func Run(t *testing.T, w *world.World, keepLog bool) *Result {
 	res := &Result{Probes: map[string]int{}, Faults: map[string]int{}}
 	h := fnv.New64a()
-	e := &Engine{w: w, res: res, h: h, hsum: h.Sum64, keepLog: keepLog, defBudget: 2_000_000, lastRun: -1}
+	e := &Engine{w: w, res: res, h: h, hsum: h.Sum64, keepLog: keepLog, defBudget: 5_000_000, lastRun: -1}
 	e.restarts = map[int]bool{}
 	for _, r := range w.Restarts {
 		e.restarts[r] = true
@@ -695,7 +695,7 @@ func (e *Engine) bubble() {
 	e.lastRun = -1
 	e.rng = world.NewRng(w.Sched.Seed)
 	e.outs = make([]*tasks.Outcome, len(w.Tasks))
-	e.defBudget = 2_000_000
+	e.defBudget = 5_000_000
 	e.pctChange = map[int64]bool{}
 	if w.Sched.Strategy == "pct" {
 		for i := 0; i < w.Sched.PCTDepth; i++ {
